@@ -730,6 +730,12 @@ func ruleContain(entryPkg string) func(p *Prog, r *Report) {
 						}
 						if inPkg {
 							key := rule + ":" + bkey
+							if !reported[key] && fn != entry {
+								// a site in a helper stands for each of the helper's call sites
+								if k := staticCallSites(p, fn, entryPkg); k > 1 {
+									r.Credit(rule, k-1)
+								}
+							}
 							if sp {
 								report(key, p.Pos(instr.Pos()), "may-panic site is under a deferred recover on every path from "+FnName(entry), false)
 							} else {
@@ -813,4 +819,20 @@ func isNamedResult(fn *ssa.Function, al *ssa.Alloc, idx int) bool {
 		return false
 	}
 	return al.Comment == res.At(idx).Name() && res.At(idx).Name() != ""
+}
+
+// staticCallSites counts the static call sites of fn in the functions of the
+// named package.
+func staticCallSites(p *Prog, fn *ssa.Function, pkg string) int {
+	n := 0
+	for _, g := range p.PkgFuncs(pkg) {
+		for _, b := range g.Blocks {
+			for _, instr := range b.Instrs {
+				if c, ok := instr.(*ssa.Call); ok && c.Common().StaticCallee() == fn {
+					n++
+				}
+			}
+		}
+	}
+	return n
 }
